@@ -71,7 +71,13 @@ def corner_model(mb: ModelBuilder, writer: str) -> Any:
         mb.relation(root, [f], 0, 1)
         ctcs.append(mb.constraint(f"c{i}", mb.node(mb.op("IMPLIES"), mb.node(nm), mb.node("Plain"))))
     if with_attrs:
-        for an, av in (("flag", None), ("size", 6.0), ("code", "10"), ("on", True)):
+        for an, av in (("flag", None), ("size", 6.0), ("code", "10"), ("on", True),
+                       # containers inside values are the model's own objects too: nested maps whose keys would need quoting
+                       # as names, lists of maps, a list inside a map
+                       ("limits", {"max speed": 3, "plain": {"inner key": [1, {"deep one": "x"}]}}),
+                       ("series", [1, [2, 3], {"k v": 2}])):
+            if writer == "ClaferWriter" and isinstance(av, (dict, list)):
+                continue                                   # (Clafer attributes are bool / int / float / str)
             plain._f["attributes"].append(mb.attribute(an, av, plain))
     return mb.model(root, ctcs)
 
@@ -288,6 +294,17 @@ def check(pm: ProgramModel, ctx: Ctx) -> None:
                               f"{l2['returned'] == l1['returned']} ({_first_diff(l1['returned'], l2['returned'])})")
         # read-back side: the streams the readers open
         readers_encoding(pm, ctx, mb)
+    # one writer object used again: after the model was edited in place, pointed at another model, and after a call that
+    # failed half-way (the returned value and the file are those of the model as it is at the time of the call)
+    from ..codec import WriterOnly, writer_failed_then_reused, writer_reuse_check
+    with console:
+        for ci in ws:
+            afm = ci.name == "AFMWriter"
+            kw_ = {"op": "REQUIRES", "abstract": ci.name in ("UVLWriter", "JSONWriter", "FeatureIDEWriter")}
+            wo = WriterOnly(pm, ctx, ci.name, "C12", wsetup=setup)
+            writer_reuse_check(wo, mb, f"REUSE:{ci.name}", **kw_)
+            writer_failed_then_reused(wo, mb, f"REUSE:{ci.name}", **kw_)
+
     ctx.floor("C12", "obligations", len(ctx.obligations), 40)
 
 
